@@ -317,15 +317,17 @@ def cases(ctx):
         ctx.extra['exhaustive_subspaces'].append(
             'constructor: all strings of length %d..%d over "1 a : -"' % SMALL_LEN[ctx.tier])
     i = 0
+    # the enumeration index is skewed by i // 14 so that a shard does not receive only the strings that end in one
+    # particular symbol (14 symbols, 14 thorough shards)
     for k in range(0, n + 1):
         for t in itertools.product(ALPHABET, repeat=k):
-            if ctx.mine(i):
+            if ctx.mine(i + i // 14):
                 yield {'kind': 'str', 's': ''.join(t), 'src': 'enum'}
             i += 1
     lo, hi = SMALL_LEN[ctx.tier]
     for k in range(lo, hi + 1):
         for t in itertools.product(SMALL_ALPHABET, repeat=k):
-            if ctx.mine(i):
+            if ctx.mine(i + i // 14):
                 yield {'kind': 'str', 's': ''.join(t), 'src': 'enum-small'}
             i += 1
     r = ctx.rng('strings')
